@@ -1,0 +1,34 @@
+//go:build verif
+
+// Package verifhook contains instrumentation points for the out-of-tree
+// deterministic simulation harness (this file: build tag "verif").
+package verifhook
+
+// Handler is installed by the simulation harness; nil means "do nothing".
+var Handler func(point string, ctx []interface{})
+
+// SkipHandler is installed by the simulation harness; nil means "never skip".
+var SkipHandler func(point string, ctx []interface{}) bool
+
+// FaultHandler is installed by the simulation harness; nil means "no fault".
+var FaultHandler func(point string, ctx []interface{}) error
+
+func Yield(point string, ctx ...interface{}) {
+	if h := Handler; h != nil {
+		h(point, ctx)
+	}
+}
+
+func Skip(point string, ctx ...interface{}) bool {
+	if h := SkipHandler; h != nil {
+		return h(point, ctx)
+	}
+	return false
+}
+
+func Fault(point string, ctx ...interface{}) error {
+	if h := FaultHandler; h != nil {
+		return h(point, ctx)
+	}
+	return nil
+}
